@@ -135,6 +135,18 @@ def run(rep):
         for bi, tt in f.calls():
             if mir.callee_id(tt) == off.id:
                 rep_off.append((f, tt))
+    # the index that is turned into an offset counts *every* configurable, in data-section order: nothing may be filtered, skipped or
+    # reversed between `configurables.iter()` and `.enumerate()` (the position in the enumeration is the position in the section)
+    tfa = tab.tree("sway-core/src/asm_generation/finalized_asm.rs")
+    enums = [n for n in tab.walk(tfa) if n.get("k") == "MethodCall" and n["method"] == "enumerate" and "configurables" in tab.show(n["recv"])]
+    for k_, n in enumerate(enums):
+        chain = tab.show(n["recv"])
+        ok_chain = re.fullmatch(r"(\w+\.)*configurables\.iter\(\)", chain) is not None
+        rep.ob("R2-configurable-index-enumerates-every-entry", f"finalized_asm.rs#{k_ + 1}", ok_chain, "sway-core/src/asm_generation/finalized_asm.rs", n["l"],
+               f"the configurables are enumerated through `{chain[:120]}`: an adapter before `.enumerate()` makes the enumeration index differ from the entry's "
+               "position in the data section, so every following configurable is reported at a wrong offset (and patched over its neighbour)")
+    if not enums:
+        raise AnalysisError("C13: no `.configurables ... .enumerate()` in finalized_asm.rs")
     rep.ob("R2-reported-offsets-use-the-offset-function", "finalized_asm.rs", len(rep_off) >= 1, "sway-core/src/asm_generation/finalized_asm.rs", 0,
            "the configurable offsets reported to the ABI must be computed with DataSection::absolute_idx_to_offset")
     ft = tab.tree("sway-core/src/asm_generation/finalized_asm.rs")
